@@ -85,6 +85,34 @@ def concurrent(ctx, sd):
     return {"concurrent_traces": len(files), "concurrent_traces_accepted": ok, "concurrent_events": done.get("events", 0),
             "conformance_notes": notes}
 
+def split(ctx, sd):
+    import random
+    if ctx.replay:
+        rp = json.load(open(ctx.replay))["replay"]
+        if rp.get("test") != "SPLIT":
+            return
+        cases = [rp["case"]]
+    else:
+        ctx.write_cfg(sd, "Split.cfg", "Spec", {"MaxPoints": ctx.pick(4, 5), "Sizes": {1, 3, 6, 11}, "Limit": 10, "Overhead": 0},
+                      ["C04_SplitKeepsPoints", "EmitBeh"])
+        behs = ctx.tlc_generate(sd, "HHSplit", "Split.cfg", exhaustive=True, workers=4, timeout=300)
+        cases = [b[0] for b in behs]
+        rnd = random.Random(ctx.seed)
+        multi = [c for c in cases if len(c["blocks"]) >= 2 or c["res"] != "ok"]
+        rnd.shuffle(multi)
+        rnd.shuffle(cases)
+        n = ctx.pick(24, 250)
+        cases = multi[:n * 3 // 4] + cases[:n // 4]
+    p = ctx.write_json("split.json", {"cases": cases})
+    recs, out, rc = ctx.go_test(PKG, FILES, "^TestVerifHHSplit$", env={"VERIF_IN": p}, timeout=900, label="split")
+    def confirm(rp):
+        p2 = ctx.write_json("split-confirm.json", {"cases": [rp["case"]]})
+        r2, o2, c2 = ctx.go_test(PKG, FILES, "^TestVerifHHSplit$", env={"VERIF_IN": p2}, timeout=300, label="split-confirm")
+        return any(r.get("k") == "mismatch" for r in r2)
+    d = ctx.process(recs, out, rc, "TestVerifHHSplit", confirm)
+    ctx.cov["split_cases_on_real_code"] = d.get("cases", 0)
+    ctx.cov["traces_validated_against_impl"] += d.get("cases", 0)
+
 def run(ctx):
     sd = ctx.spec_dir("hhqueue")
     # 1. exhaustive: the design with the recorded deviation, queue on its own / under the processor / strict
@@ -149,6 +177,8 @@ def run(ctx):
     if not ctx.replay:
         recs, out, rc = ctx.go_test(PKG, FILES, "^TestVerifHHProcStress$", env={"VERIF_ROUNDS": ctx.pick(30, 200)}, timeout=900, label="procstress")
         ctx.process(recs, out, rc, "TestVerifHHProcStress")
+    # 2c. batch bisection in WriteShard (HHSplit): exhaustive on the model, sampled cases on the real code
+    split(ctx, sd)
     # 3. real concurrent executions (buffered path, racing Close) -> HHQueueTrace
     tr = concurrent(ctx, sd)
     extra = {"replayed_behaviours": done.get("behaviours", 0), "replayed_steps": done.get("steps", 0),
